@@ -209,6 +209,28 @@ func latticeCases() []lcase {
 	add("JSON.stringify cyclic", "(function(){ var c = {a: {b: {}}}; c.a.b.c = c.a; return JSON.stringify(c); })()", "TypeError", "15.12.3 JO step 1")
 	add("JSON.stringify cyclic", "(function(){ var c = {}; c.toJSON = function(){ return c; }; return JSON.stringify({c: c}); })()", "", "15.12.3 (toJSON result is not walked again through toJSON of the holder: c is serialised once)")
 	add("JSON.stringify cyclic", "(function(){ var c = {a: 1}; return JSON.stringify([c, c]); })()", "", "15.12.3 (shared, not cyclic)")
+	// cycles that only come into being DURING the walk: closed by what toJSON, the replacer
+	// function or a getter returns (15.12.3 Str steps 2-3 run before JO/JA step 1 looks at the stack)
+	dyn := func(body, want, rule string) {
+		add("JSON.stringify dynamic cycle", "(function(){ "+body+" })()", want, rule)
+	}
+	dyn(`var n = 0; return JSON.stringify({}, function(k, v){ return n++ < 2 ? this : 1; });`, "TypeError", "15.12.3: replacer returns the holder")
+	dyn(`var n = 0; return JSON.stringify([], function(k, v){ return n++ < 2 ? this : 1; });`, "TypeError", "15.12.3: replacer returns the holder")
+	dyn(`var n = 0, root = {c: {toJSON: function(){ return n++ < 1 ? root : 1; }}}; return JSON.stringify(root);`, "TypeError", "15.12.3: toJSON returns the root")
+	dyn(`var root = {c: {toJSON: function(){ return root; }}}; return JSON.stringify(root);`, "TypeError", "15.12.3: toJSON returns the root")
+	dyn(`var p = {}; p.k = {toJSON: function(){ return p; }}; return JSON.stringify({top: p});`, "TypeError", "15.12.3: toJSON returns the parent")
+	dyn(`var a = []; a[0] = {toJSON: function(){ return a; }}; return JSON.stringify(a);`, "TypeError", "15.12.3: toJSON returns the array")
+	dyn(`var a = []; a[0] = {toJSON: function(){ return a; }}; return JSON.stringify({x: [a]});`, "TypeError", "15.12.3: toJSON returns an ancestor array")
+	dyn(`var r = {a: {}}; return JSON.stringify(r, function(k, v){ return k === "a" ? r : v; });`, "TypeError", "15.12.3: replacer returns the root")
+	dyn(`var r = {a: {b: {}}}; return JSON.stringify(r, function(k, v){ return k === "b" ? r.a : v; });`, "TypeError", "15.12.3: replacer returns the parent")
+	dyn(`var r = {a: [0]}; return JSON.stringify(r, function(k, v){ return k === "0" ? r : v; });`, "TypeError", "15.12.3: replacer returns the root for an array element")
+	dyn(`var r = {}; Object.defineProperty(r, "g", {enumerable: true, get: function(){ return r; }}); return JSON.stringify(r);`, "TypeError", "15.12.3: getter returns the holder")
+	dyn(`var p = {k: {}}; Object.defineProperty(p.k, "up", {enumerable: true, get: function(){ return p; }}); return JSON.stringify(p);`, "TypeError", "15.12.3: getter returns the parent")
+	dyn(`var r = {}, n = 0; Object.defineProperty(r, "g", {enumerable: true, get: function(){ return n++ < 1 ? r : 1; }}); return JSON.stringify([r]);`, "TypeError", "15.12.3: getter returns the holder once")
+	dyn(`var s = {toJSON: function(){ return s; }}; return JSON.stringify(s);`, "", "15.12.3: toJSON returning the value itself closes no cycle")
+	dyn(`return JSON.stringify({a: 1}, function(k, v){ return k === "" ? v : 2; });`, "", "15.12.3")
+	dyn(`var c = {x: 1}; return JSON.stringify({a: {toJSON: function(){ return c; }}, b: {toJSON: function(){ return c; }}});`, "", "15.12.3: shared, not cyclic")
+	dyn(`var n = 0; return JSON.stringify({}, function(k, v){ return n++ < 1 ? {d: 1} : v; });`, "", "15.12.3")
 	// URI
 	for _, f := range []string{"decodeURI", "decodeURIComponent"} {
 		for _, t := range []string{`"%"`, `"%G0"`, `"%4"`, `"%E0%A4%A"`, `"%C0%80"`, `"%80"`, `"%E0%A4"`, `"%F8%80%80%80%80"`} {
